@@ -111,6 +111,9 @@ inductive Stmt
   | iter (i n : Var) (k : Nat) (body : Stmt)
   /-- call of another anchored function: its skeleton runs in place (shared variables) -/
   | invoke (f : String)
+  /-- a function literal executed in place (`mwdb.View(db, func(tx) error { … })`): `ret` inside leaves
+      only this scope -/
+  | scope (body : Stmt)
   | ret
   deriving Repr, Inhabited
 
@@ -166,6 +169,10 @@ def run (P : Prog) (O : Oracle) : Nat → Stmt → State → Except Fault Flow
       match run P O n body σ with
       | .ok (.retd σ') => .ok (.norm σ')
       | r => r
+  | n + 1, .scope body, σ =>
+    match run P O n body σ with
+    | .ok (.retd σ') => .ok (.norm σ')
+    | r => r
   | _ + 1, .ret, σ => .ok (.retd σ)
 
 /-- the partial-operation sites of a skeleton, in order -/
@@ -179,11 +186,16 @@ def sites : Stmt → List (String × String)
   | .loop _ _ _ body => sites body
   | .iter _ _ _ body => sites body
   | .invoke _ => []
+  | .scope body => sites body
   | .ret => []
 
 -- ------------------------------------------------------------------ static checker
 
 abbrev Facts := List Clause
+
+def insertC (F : Facts) (c : Clause) : Facts := if F.contains c then F else F ++ [c]
+/-- union without duplicates (keeps the fact lists small) -/
+def union (F G : Facts) : Facts := G.foldl insertC F
 
 def atomsOf (F : Facts) : List Atom := (F.filter (fun c => c.pre.isEmpty)).flatMap (·.post)
 
@@ -212,7 +224,7 @@ def entailsA (A : List Atom) (a : Atom) : Bool :=
 
 /-- one round of forward chaining over the clauses -/
 def chainStep (F : Facts) (A : List Atom) : List Atom :=
-  F.foldl (fun acc c => if c.pre.all (entailsA acc) then acc ++ c.post else acc) A
+  F.foldl (fun acc c => if c.pre.all (entailsA acc) then acc ++ c.post.filter (fun a => !(acc.contains a)) else acc) A
 
 def chain (F : Facts) : Nat → List Atom → List Atom
   | 0, A => A
@@ -223,7 +235,10 @@ def closure (F : Facts) : List Atom := chain F F.length []
 
 def entails (F : Facts) (a : Atom) : Bool := entailsA (closure F) a
 
-def kill (x : Var) (F : Facts) : Facts := F.filter (fun c => !(c.vars.contains x))
+/-- forget everything about `x`: clauses mentioning `x` are dropped, but the atoms they already yield
+    about other variables are kept -/
+def kill (x : Var) (F : Facts) : Facts :=
+  union (F.filter (fun c => !(c.vars.contains x))) (((closure F).filter (fun a => !(a.vars.contains x))).map fact)
 
 def killAll (xs : List Var) (F : Facts) : Facts := xs.foldl (fun F x => kill x F) F
 
@@ -254,11 +269,58 @@ mutual
     | .gtU32Pred i xs => if entails F (.ge xs 1) then [.lt i xs] else []
 end
 
-/-- meet of the facts of two control-flow paths (`none` = path unreachable) -/
+/-- variables that are non-zero on the `A` paths and zero on the `B` paths (`err` after `if err != nil`) -/
+def discr (A B : List Atom) : List Var :=
+  ((A.filterMap (fun a => match a with | .nz e => some e | _ => none)).filter (fun e => entailsA B (.z e))).take 1
+
+/-- `as` guarded by `e ≠ 0` (pos) or `e = 0` -/
+def condFacts (e : Var) (pos : Bool) (as : List Atom) : Facts :=
+  as.map (fun a => ⟨[if pos then Atom.nz e else Atom.z e], [a]⟩)
+
+/-- meet of the facts of two control-flow paths (`none` = path unreachable): the common clauses, the
+    atoms derivable on both paths, and – when a variable discriminates the paths (`err ≠ 0` on one,
+    `err = 0` on the other) – the atoms of each path guarded by that variable -/
 def meet : Option Facts → Option Facts → Option Facts
   | none, y => y
   | x, none => x
-  | some A, some B => some (A.filter (fun c => B.contains c))
+  | some A, some B =>
+    let ca := closure A
+    let cb := closure B
+    let common := union (A.filter (fun c => B.contains c)) ((ca.filter (fun a => entailsA cb a)).map fact)
+    let onlyA := ca.filter (fun a => !(entailsA cb a))
+    let onlyB := cb.filter (fun a => !(entailsA ca a))
+    let extra := (discr ca cb).flatMap (fun e => condFacts e true onlyA ++ condFacts e false onlyB) ++
+                 (discr cb ca).flatMap (fun e => condFacts e true onlyB ++ condFacts e false onlyA)
+    some (union common extra)
+
+/-- contradictory facts: the path is unreachable -/
+def inconsistent (F : Facts) : Bool :=
+  let A := closure F
+  A.any (fun a => match a with | .nz x => entailsA A (.z x) | _ => false)
+
+/-- variables a statement may assign (`none`: unknown) -/
+def assigned (P : Prog) : Nat → Stmt → Option (List Var)
+  | 0, _ => none
+  | _ + 1, .skip => some []
+  | n + 1, .seq a b =>
+    match assigned P n a, assigned P n b with
+    | some x, some y => some (x ++ y)
+    | _, _ => none
+  | _ + 1, .site _ _ _ => some []
+  | _ + 1, .call _ outs _ => some outs
+  | _ + 1, .set x _ => some [x]
+  | n + 1, .ite _ t e =>
+    match assigned P n t, assigned P n e with
+    | some x, some y => some (x ++ y)
+    | _, _ => none
+  | n + 1, .loop i _ _ body => (assigned P n body).map (fun l => i :: l)
+  | n + 1, .iter i _ _ body => (assigned P n body).map (fun l => i :: l)
+  | n + 1, .invoke f =>
+    match P f with
+    | none => some []
+    | some body => assigned P n body
+  | n + 1, .scope body => assigned P n body
+  | _ + 1, .ret => some []
 
 /-- is the loop invariant re-established at the end of the body (`none`: the end is unreachable)? -/
 def invKept (inv : List Atom) : Option Facts → Bool
@@ -283,23 +345,31 @@ def check (P : Prog) : Nat → Facts → Stmt → Option (Option Facts × Option
     match req with
     | none => some (some F, none)
     | some a => if entails F a then some (some F, none) else none
-  | _ + 1, F, .call _ outs ens => some (some (killAll outs F ++ ens), none)
+  | _ + 1, F, .call _ outs ens => some (some (union (killAll outs F) ens), none)
   | _ + 1, F, .set x a =>
     let F' := kill x F
     match a with
-    | .k n => some (some (F' ++ [fact (.eqk x n)]), none)
-    | .v y => if y = x then some (some F', none) else some (some (F' ++ [fact (.eqv x y)]), none)
+    | .k n => some (some (union F' [fact (.eqk x n)]), none)
+    | .v y => if y = x then some (some F', none) else some (some (union F' [fact (.eqv x y)]), none)
   | n + 1, F, .ite c t e =>
-    match check P n (F ++ (c.pos F).map fact) t, check P n (F ++ (c.neg F).map fact) e with
+    let Ft := union F ((c.pos F).map fact)
+    let Fe := union F ((c.neg F).map fact)
+    match (if inconsistent Ft then some (none, none) else check P n Ft t),
+          (if inconsistent Fe then some (none, none) else check P n Fe e) with
     | some (Tn, Tr), some (En, Er) => some (meet Tn En, meet Tr Er)
     | _, _ => none
   | n + 1, F, .loop i cnt inv body =>
-    if !(inv.all (entails F)) then none
-    else if inv.any (fun a => a.vars.contains i) || i == cnt then none
-    else
-      match check P n (inv.map fact ++ [fact (.lt i cnt)]) body with
-      | none => none
-      | some (Bn, Br) => if invKept inv Bn then some (some (inv.map fact), Br) else none
+    match assigned P n body with
+    | none => none
+    | some L =>
+      -- facts about variables the loop does not touch survive it
+      let Fk := F.filter (fun c => !(c.vars.any (fun x => x == i || L.contains x)))
+      if !(inv.all (entails F)) then none
+      else if inv.any (fun a => a.vars.contains i) || i == cnt then none
+      else
+        match check P n (union (union Fk (inv.map fact)) [fact (.lt i cnt)]) body with
+        | none => none
+        | some (Bn, Br) => if invKept inv Bn then some (some (union Fk (inv.map fact)), Br) else none
   | _ + 1, _, .iter _ _ _ _ => none
   | n + 1, F, .invoke f =>
     match P f with
@@ -308,6 +378,10 @@ def check (P : Prog) : Nat → Facts → Stmt → Option (Option Facts × Option
       match check P n F body with
       | none => none
       | some (Bn, Br) => some (meet Bn Br, none)
+  | n + 1, F, .scope body =>
+    match check P n F body with
+    | none => none
+    | some (Bn, Br) => some (meet Bn Br, none)
   | _ + 1, F, .ret => some (none, some F)
 
 /-- a root skeleton (API handler / follower entry point) is accepted from no assumptions -/
